@@ -23,6 +23,7 @@ META = {
     "required_counters": ["frames_compared", "sentinel_ok"],
     "assumptions": [],
 }
+META["claim"] += " " + "Also: explicit 16/64-bit boundary lengths (126..65535, 65536..2^20), and the repository's tests re-run with contracts on recv_strict/mask."
 
 SENT = b"\x5a\xa5SENTINEL"
 
